@@ -25,11 +25,11 @@ ASSIGN = {
     'auto': [(1, '1'), (-1, 'auto'), ('0', '0'), (0, '0')],      # (text is converted like a number)
     'int': [(7, '7'), (0, '0'), ('12', '12')],
     'float': [(1.5, '1.5')],
-    'str': [('x y', 'x y'), ('J. "R" \\ P', 'J. "R" \\ P')],
+    'str': [('x y', 'x y'), ('J. "R" \\ P', 'J. "R" \\ P'), ('"Alice"', '"Alice"')],       # (last: begins with a quote, no blank)
 }
 LIST_VALUES = {
     'CommaOpt': ['c', 'd', 'e'],
-    'LineOpt': ['n1', 'say "hi" now', 'n3'],
+    'LineOpt': ['n1', 'say "hi" now', '"n3"'],
     'SocksPort': ['9051', 'unix:/s', '9052 IsolateDestAddr'],
 }
 SAVES = [('save', 'ok'), ('save', 'reject'), ('save', 'held')]
